@@ -182,8 +182,18 @@ func gen(g *vh.Gen) {
 			}
 		}
 		ops := strings.Join(h.ops, ",")
-		// the same history on both back-ends
-		g.Emit("hist", "mem", naming, vh.HS(base), ops)
-		g.Emit("hist", "file", naming, vh.HS(base), ops)
+		// the same history on both back-ends; a quarter of them with a mailbox cap and / or (memory store)
+		// a store-wide size limit, so that deliveries evict while API calls go on
+		lim, mlim := "", ""
+		if g.Chance(0.25) {
+			if g.Chance(0.7) {
+				lim = fmt.Sprintf(".c%d", 1+g.Intn(3))
+			}
+			if lim == "" || g.Chance(0.4) {
+				mlim = ".m1"
+			}
+		}
+		g.Emit("hist", "mem"+lim+mlim, naming, vh.HS(base), ops)
+		g.Emit("hist", "file"+lim, naming, vh.HS(base), ops)
 	}
 }
